@@ -509,7 +509,7 @@ def _run_block(block, rep):
                 obs, v = run_case(rep, case)
                 rep.count('atom_' + a[0])
                 rep.count('atom_true' if M.atom_value(a) else 'atom_false')
-                if i % 97 == 0 and neg:
+                if i % 600 == 1 and neg:
                     rep.sample({'input': case_source(case), 'observed': obs})
     elif tag == 'P':
         _, lo, hi, seed = block
